@@ -299,6 +299,17 @@ Definition t3_step (s : sst) : sst :=
       (if st_infr s then false else st_rtxfast s)
       (st_mtu s) (st_mincwnd s) (st_castep s) (st_pendn s) (st_pendbytes s) (st_buffered s).
 
+(* onRackLossLocked (fix for finding D26): the congestion response to a loss detected by RACK (during SACK
+   processing or by the RACK timer) is the one of the third miss indication - enter fast recovery, once per
+   window of data.  The recovery exit point is the highest TSN sent (myNextTSN - 1 = front + length - 1). *)
+Definition rack_cut (s : sst) : sst :=
+  if st_infr s then s
+  else
+    let ssth := Z.max (st_cwnd s / 2) (wrap32 (4 * st_mtu s)) in
+    mkS (st_state s) (st_cum s) (st_front s) (st_infl s) (st_nbytes s) (set_cwnd s ssth) (st_rwnd s) ssth 0
+        true (wrap32 (st_front s + Z.of_nat (length (st_infl s)) - 1)) (st_rtxfast s)
+        (st_mtu s) (st_mincwnd s) (st_castep s) (st_pendn s) (st_pendbytes s) (st_buffered s).
+
 (* accepted write: the fragments of one message are pushed to the pending queue and the stream's
    buffered amount grows by the message length (Stream.packetize + sendPayloadData) *)
 Definition write_step (s : sst) (sid : Z) (frags : list Z) : sst :=
